@@ -401,6 +401,8 @@ impl<K: Kind> Sys for ChSys<K> {
 }
 
 pub struct Cfg {
+    /// 0 = patterned nonce, 1 = all-ones nonce (a carry into a nonce / stream-id word then overflows it)
+    pub nonce_variant: u8,
     pub max_states: usize,
     pub max_wall_s: u64,
     pub stateright: u8,
@@ -411,8 +413,15 @@ pub struct Cfg {
     pub max_depth: usize,
 }
 
+fn nonce_variant(v: u8, len: usize) -> Vec<u8> {
+    match v {
+        0 => nonce_pattern(2, len),
+        _ => vec![0xff; len],
+    }
+}
+
 fn run_kind<K: Kind>(rep: &mut Report, cfg: &Cfg) {
-    let sys = std::sync::Arc::new(ChSys::<K>::new(key_pattern(2), nonce_pattern(2, K::NONCE_LEN), cfg.w, cfg.canonical, cfg.c11, cfg.dense_apply));
+    let sys = std::sync::Arc::new(ChSys::<K>::new(key_pattern(2), nonce_variant(cfg.nonce_variant, K::NONCE_LEN), cfg.w, cfg.canonical, cfg.c11, cfg.dense_apply));
     CANONICAL_KEY.store(cfg.canonical, std::sync::atomic::Ordering::SeqCst);
     let t0 = std::time::Instant::now();
     let out = bfs_capped(&*sys, cfg.max_depth, cfg.max_states, std::time::Duration::from_secs(cfg.max_wall_s));
@@ -424,7 +433,7 @@ fn run_kind<K: Kind>(rep: &mut Report, cfg: &Cfg) {
         // threads (thorough: also with 1) against the own BFS on the same system (quick: a 2-block
         // window system, so that it stays cheap)
         let (xsys, mine_states, bad_mine) = if cfg.canonical {
-            let x = std::sync::Arc::new(ChSys::<K>::new(key_pattern(2), nonce_pattern(2, K::NONCE_LEN), 2, false, cfg.c11, 64 * 3));
+            let x = std::sync::Arc::new(ChSys::<K>::new(key_pattern(2), nonce_variant(cfg.nonce_variant, K::NONCE_LEN), 2, false, cfg.c11, 64 * 3));
             let o = bfs(&*x, cfg.max_depth, 20_000_000);
             let b: u64 = o.bad.iter().map(|b| b.count).sum();
             (x, o.unique_states, b)
@@ -432,7 +441,19 @@ fn run_kind<K: Kind>(rep: &mut Report, cfg: &Cfg) {
             (sys.clone(), out.unique_states, out.bad.iter().map(|b| b.count).sum())
         };
         let (n16, b16) = crate::srcheck::explore(xsys.clone(), 16);
-        let (n1, b1) = if cfg.stateright == 2 { crate::srcheck::explore(xsys.clone(), 1) } else { (n16, b16) };
+        // single-threaded stateright run (determinism): on the small system only, it is slow
+        let (n1, b1) = if cfg.stateright == 2 {
+            let small = std::sync::Arc::new(ChSys::<K>::new(key_pattern(2), nonce_variant(cfg.nonce_variant, K::NONCE_LEN), 2, false, cfg.c11, 64 * 3));
+            let o = bfs(&*small, cfg.max_depth, 20_000_000);
+            let (s1, sb1) = crate::srcheck::explore(small.clone(), 1);
+            let ob: u64 = o.bad.iter().map(|b| b.count).sum();
+            if s1 != o.unique_states || sb1 != ob {
+                rep.violation("chacha:machinery:explorer-disagreement", format!("{}: 2-block system: own BFS {} states / {} violating transitions, stateright (1 thread) {} / {}", K::NAME, o.unique_states, ob, s1, sb1), json!({}));
+            }
+            (n16, b16)
+        } else {
+            (n16, b16)
+        };
         sr = json!({"system": if cfg.canonical { "2-block windows, exact key" } else { "same system, exact key" }, "own_bfs_unique_states": mine_states, "unique_states_1_thread": n1, "unique_states_16_threads": n16, "violating_transitions": b1});
         if n1 != mine_states || n16 != mine_states || b1 != bad_mine || b16 != bad_mine {
             rep.violation("chacha:machinery:explorer-disagreement", format!("{}: own BFS found {} states / {} violating transitions, stateright {} / {} (1 thread) and {} / {} (16 threads)", K::NAME, mine_states, bad_mine, n1, b1, n16, b16), json!({}));
@@ -455,7 +476,7 @@ fn run_kind<K: Kind>(rep: &mut Report, cfg: &Cfg) {
         v.into_iter().map(|(k, n)| (k.clone(), json!(n))).collect()
     };
     let per = json!({
-        "kind": K::NAME, "states": out.unique_states, "transitions": out.transitions, "cut_states": out.cut_states,
+        "kind": K::NAME, "nonce": if cfg.nonce_variant == 0 { "pattern" } else { "all-ones" }, "states": out.unique_states, "transitions": out.transitions, "cut_states": out.cut_states,
         "bfs_depth": out.max_depth, "fixpoint": out.fixpoint, "capped": out.capped, "menu_size": sys.menu.len(), "init_states": sys.inits.len(),
         "windows": sys.windows.iter().map(|(a,b)| format!("[{},{})", a, b)).collect::<Vec<_>>(),
         "outcome_classes": Value::Object(classes), "wall_s": secs, "stateright_crosscheck": sr,
@@ -468,7 +489,7 @@ fn run_kind<K: Kind>(rep: &mut Report, cfg: &Cfg) {
     }
     for b in out.bad {
         let replay = json!({"engine":"H","check": rep.prop, "kind": K::NAME, "config": rep.config, "w": cfg.w, "canonical": cfg.canonical, "c11": cfg.c11, "dense_apply": cfg.dense_apply,
-            "init_index": b.init_index, "ops": b.path.iter().map(|a| a.to_json()).collect::<Vec<_>>() });
+            "nonce_variant": cfg.nonce_variant, "init_index": b.init_index, "ops": b.path.iter().map(|a| a.to_json()).collect::<Vec<_>>() });
         rep.violations.insert(b.sig.clone(), Violation { sig: b.sig.clone(), detail: format!("{} (after {} earlier calls)", b.detail, b.path.len() - 1), replay, count: b.count });
     }
 }
@@ -478,17 +499,25 @@ pub fn run(prop: &str, tier: &str, config: &str) -> Report {
     let c11 = prop == "C11";
     let thorough = tier == "thorough";
     let w: u64 = std::env::var("VH_W").ok().and_then(|s| s.parse().ok()).unwrap_or(9);
-    let cfg = Cfg { max_states: if thorough { 4_000_000 } else { 400_000 }, max_wall_s: if thorough { 1800 } else { 90 }, stateright: if thorough { 2 } else { 1 }, w, canonical: !thorough, c11, dense_apply: (64 * (w + 1)) as usize, max_depth: 64 };
-    rep.rule = format!("explicit-state BFS on the real cipher object; state key = (have,len,fresh,out[64],all four d words via get_stream_param,model position){}; menu identical in every state: try_seek to every byte position of every window through u64 plus a sparse set through u8,u16,u32,u128,usize,i32 (incl. -1, type maxima, beyond-the-end values), try_apply_keystream(n) for every n in 0..={}, try_current_pos through all 7 integer types; windows of {} blocks at 0, at 2^38 bytes (IETF end / low-counter-word carry) and at 2^64 bytes{}; states whose position leaves the windows are kept but not expanded; run to fixpoint",
+    let mut cfg = Cfg { nonce_variant: 0, max_states: if thorough { 4_000_000 } else { 400_000 }, max_wall_s: if thorough { 1800 } else { 90 }, stateright: if thorough { 2 } else { 1 }, w, canonical: !thorough, c11, dense_apply: (64 * (w + 1)) as usize, max_depth: 64 };
+    rep.rule = format!("explicit-state BFS on the real cipher object; state key = (have,len,fresh,out[64],all four d words via get_stream_param,model position){}; menu identical in every state: try_seek to every byte position of every window through u64 plus a sparse set through u8,u16,u32,u128,usize,i32 (incl. -1, type maxima, beyond-the-end values), try_apply_keystream(n) for every n in 0..={}, try_current_pos through all 7 integer types; windows of {} blocks at 0, at 2^38 bytes (IETF end / low-counter-word carry) and at 2^64 bytes{}; states whose position leaves the windows are kept but not expanded; run to fixpoint; the whole exploration is repeated with an all-ones nonce (quick: 4-block windows)",
         if cfg.canonical { "; dedup key ignores the dead part of `out` (each stored state keeps the real bytes of the first execution reaching it)" } else { " (exact key)" }, cfg.dense_apply, w,
         if c11 { "; C11 adds dense seeks around the IETF end, oversized requests, and start states after 2^64-k blocks (k=0..=w) entered through the public fields" } else { "" });
+    crate::for_each_kind!(run_kind, &mut rep, &cfg);
+    // second nonce: all ones (any carry into a nonce / stream-id word overflows it), smaller windows
+    cfg.nonce_variant = 1;
+    if !thorough {
+        cfg.w = std::cmp::min(cfg.w, 4);
+        cfg.dense_apply = (64 * (cfg.w + 1)) as usize;
+    }
+    cfg.stateright = 0;
     crate::for_each_kind!(run_kind, &mut rep, &cfg);
     let st = rep.extra.get("states").and_then(|v| v.as_u64()).unwrap_or(0);
     let tr = rep.extra.get("transitions").and_then(|v| v.as_u64()).unwrap_or(0);
     rep.evaluations = tr;
     rep.nontrivial = st;
     rep.set("traces_validated_against_impl", json!(tr));
-    rep.assumptions.push("one fixed (key, nonce) per cipher type: the bookkeeping under test never reads key or nonce values (C01 covers values)".into());
+    rep.assumptions.push("one key and two nonces (a pattern, and all-ones so that a carry into a nonce word overflows) per cipher type: the bookkeeping under test does not read key values (C01 covers values)".into());
     rep.assumptions.push("positions outside the three windows are represented by the windows (the code has no other position-dependent branch than block-boundary, 2^32-block and end-of-stream arithmetic)".into());
     rep
 }
@@ -498,7 +527,7 @@ pub fn replay(v: &Value) -> bool {
         if v["kind"].as_str()? != K::NAME {
             return None;
         }
-        let sys = ChSys::<K>::new(key_pattern(2), nonce_pattern(2, K::NONCE_LEN), v["w"].as_u64()?, v["canonical"].as_bool()?, v["c11"].as_bool()?, v["dense_apply"].as_u64()? as usize);
+        let sys = ChSys::<K>::new(key_pattern(2), nonce_variant(v["nonce_variant"].as_u64().unwrap_or(0) as u8, K::NONCE_LEN), v["w"].as_u64()?, v["canonical"].as_bool()?, v["c11"].as_bool()?, v["dense_apply"].as_u64()? as usize);
         let mut s = sys.inits[v["init_index"].as_u64()? as usize].clone();
         println!("replay {} on {} from init state #{} (pos {:?})", v["check"], K::NAME, v["init_index"], s.pos);
         for op in v["ops"].as_array()? {
